@@ -40,20 +40,24 @@ def mk_indexed_document(g):
     return g.new(Document, {'tree': tree, 'measure_start_tree_stages': mst, 'page_bounding_boxes': {}, 'header_stage': 1}, None)
 
 
-@contract(EX + 'Exporter.export_string', props=['C07', 'C19'], name='export_string_range', use_at_calls=False)
+@contract(EX + 'Exporter.export_string', props=['C07', 'C19', 'C14'], name='export_string_range', use_at_calls=False)
 class export_string_range:
     """At the head of the body loop: from_stage is the stage of the barline that opens from_measure (0 when no start is given) and
     to_stage is the stage of the barline that closes to_measure when a later measure exists, otherwise the last stage -- for every
-    number of stages and measures (the loops that rebuild the preamble are over-approximated: they do not assign these two locals)."""
+    number of stages and measures (the loops that rebuild the preamble are over-approximated: they do not assign these two locals).
+    Frame (C14): on the way to the body loop nothing that existed before the call is written -- the statements that are followed are
+    checked write by write, the over-approximated loops by syntactic ownership (every mutating call / store in them goes to a
+    container the function itself created)."""
     cut = 'for stage in range('
-    witness_via = 'measure_ranges_partition'
+    witness_via = ('measure_ranges_partition', 'read_only_api_is_pure')
 
     def inputs(g):
         doc = mk_indexed_document(g)
         a = None if g.choice('from.none', [True, False]) else g.int('from_measure')
         b = None if g.choice('to.none', [True, False]) else g.int('to_measure')
+        ids = None if g.choice('spine_ids.none', [True, False]) else g.int_set('spine_ids')
         o = g.new(ExportOptions, {'spine_types': ['**kern'], 'from_measure': a, 'to_measure': b, 'token_categories': [], 'kern_type': None,
-                                  'instruments': None, 'show_measure_numbers': False, 'spine_ids': None}, None)
+                                  'instruments': None, 'show_measure_numbers': False, 'spine_ids': ids}, None)
         return {'self': g.new(Exporter, {}, ()), 'document': doc, 'options': o}
 
     def requires(document, options):
